@@ -1431,7 +1431,12 @@ class Interp(object):
       header = "while " + ast.unparse(st.test)
     else:
       header = "for %s in %s" % (ast.unparse(st.target), ast.unparse(st.iter))
-    if not header.startswith(spec.anchor):
+    moved = not header.startswith(spec.anchor)
+    if moved and isinstance(st, ast.For) and ' in ' in spec.anchor:
+      # a for-loop is identified by what it iterates over; the name(s) of its target may change
+      # (a contract that reads the target by name then fails with "no longer matches", never silently)
+      moved = not ast.unparse(st.iter).startswith(spec.anchor.split(' in ', 1)[1])
+    if moved:
       raise AnchorMoved("%s loop %d: header %r does not start with anchor %r" %
                         (fr.func.qualname, ordn, header, spec.anchor))
     return spec, ordn
